@@ -95,6 +95,30 @@ func build(ws *pipe.Workspace, dir string, bounds bool) {
 		fmt.Fprintf(&sb, "\t\t%q,\n", s)
 	}
 	h = strings.Replace(h, "%SITES%", sb.String(), 1)
+	// extra tables of the current templates, installed by name
+	var cases, names strings.Builder
+	for _, src := range []string{res.Parser, res.Lexer} {
+		var parts *pipe.GenParts
+		var err error
+		if src == res.Parser {
+			parts, err = pipe.ParserParts(src)
+		} else {
+			parts, err = pipe.LexerParts(src)
+		}
+		if err != nil {
+			die("split: %v", err)
+		}
+		for _, n := range parts.ExtraTables() {
+			el := pipe.TableElem(src, n)
+			if el == "" {
+				die("extra table %s: element type not recognised", n)
+			}
+			fmt.Fprintf(&cases, "\t\tcase %q:\n\t\t\t%s = convTab[%s](vals)\n\t\t\treturn true\n", n, n, el)
+			fmt.Fprintf(&names, "%q, ", n)
+		}
+	}
+	h = strings.Replace(h, "%EXTRACASES%", cases.String(), 1)
+	h = strings.Replace(h, "%EXTRANAMES%", names.String(), 1)
 	write(filepath.Join(dir, "carrier.go"), h)
 }
 
